@@ -777,6 +777,7 @@ def run(ctx: Any, prog: Program) -> None:
         helper_names = {str(m.value) for m in Folder(prog, fgd).enum_table('HelperTypes')}
     except Exception:  # noqa: BLE001
         helper_names = set()
+    ctx.shape('C16.Q3', bool(helper_names), fgd, exp_fn, 'HelperTypes could not be folded', func='<module>', text='HelperTypes members')
     for hl in hloops:
         for c in [x for b in hl.body for x in ast.walk(b) if isinstance(x, ast.Call) and isinstance(x.func, ast.Attribute) and x.func.attr == 'write' and x.args]:
             pieces = _flat(c.args[0])
@@ -784,7 +785,7 @@ def run(ctx: Any, prog: Program) -> None:
             if '(' in lits:
                 ctx.check('C16.Q3', True, fgd, c, 'name followed by parenthesised arguments', func='EntityDef.export', text=f'helper written as `{U(c.args[0])[:40]}`')
             elif all(p_.kind == 'lit' for p_ in pieces):
-                ctx.check('C16.Q3', lits.strip() in helper_names or not helper_names, fgd, c, f'the bare keyword {lits.strip()!r} is not a HelperTypes member: the parser keeps it pending as an unknown helper and drops it when the next '
+                ctx.check('C16.Q3', lits.strip() in helper_names, fgd, c, f'the bare keyword {lits.strip()!r} is not a HelperTypes member: the parser keeps it pending as an unknown helper and drops it when the next '
                           'helper name arrives', func='EntityDef.export', text=f'helper written as `{U(c.args[0])[:40]}`')
             else:
                 ctx.check('C16.Q3', False, fgd, c, f'`{U(c.args[0])[:60]}` writes a helper name that is not spelled out without parentheses: the header parser overwrites a pending unknown helper name when the next name '
